@@ -10,7 +10,7 @@ import sys
 import time
 
 ROOT = os.path.dirname(os.path.dirname(os.path.abspath(__file__)))
-REPO = os.environ.get("VERIF_REPO", "/repo")
+REPO = os.environ.get("VERIF_REPO") or os.environ.get("VP_RUN_REPO") or "/repo"
 CACHE = os.path.join(ROOT, ".cache")
 COQ = os.path.join(ROOT, "coq")
 NPROC = max(1, min(16, os.cpu_count() or 4))
